@@ -398,6 +398,7 @@ fn seqs(l: usize, small: usize) -> Vec<Vec<usize>> {
     v.push(vec![small, small, small]);
     v.push(vec![small, l + 1, small]);
     v.push(vec![0, 0, l + 2]);
+    v.push(vec![small, l + 20]);
     v
 }
 
